@@ -598,6 +598,9 @@ class Node:
         Returns:
             the new :class:`~nutree.node.Node` instance
         """
+        if before is False:
+            before = None  # append (`False` is an int, but does not mean index 0)
+
         if isinstance(child, self._tree.__class__):
             if deep is None:
                 deep = True
@@ -760,6 +763,8 @@ class Node:
 
         if before is True:
             before = 0  # prepend
+        elif before is False:
+            before = None  # append (`False` is an int, but does not mean index 0)
 
         target_siblings = new_parent._children
         if target_siblings is None:
